@@ -427,6 +427,11 @@ def gen_colheader(rng, ndisp, mode=None, base=0, rich=0.2, half_points=False, co
 
     def hdr(k, n, widths):
         kw: dict = {"text": [f"H{base + k}c{j}" for j in range(n)]}
+        if n >= 2 and rng.random() < 0.15:
+            # labels repeat in real headers ("n", "(%)", "n", "(%)"): still one cell per label
+            for j in range(1, n):
+                if rng.random() < 0.5:
+                    kw["text"][j] = kw["text"][rng.randrange(j)]
         if widths:
             kw["col_rel_width"] = [rng.choice([1, 1, 2, 0.5, round(rng.uniform(0.2, 10), 2)]) for _ in range(n)]
         for name in TEXT_ATTRS + ["border_left", "border_right", "border_top", "border_bottom"]:
@@ -524,6 +529,10 @@ def gen_table_spec(rng, *, nrows=(0, 30), ncols=(1, 6), strategy=None, header=No
         col_rel_width = rng.random() < 0.4
     if col_rel_width:
         body["col_rel_width"] = [rng.choice([1, 1, 2, 3, 0.5, round(rng.uniform(0.2, 10), 2)]) for _ in range(nc)]
+    if sb and "col_rel_width" in body and rng.random() < 0.4:
+        # the documented short form: one width per column that remains once the subline_by columns are gone
+        names_ = [c["name"] for c in df["cols"]]
+        body["col_rel_width"] = [w for j, w in enumerate(body["col_rel_width"]) if names_[j] not in meta["subline_by"]]
     body.update(gen_body_attrs(rng, n, nc, names=attr_names, p=attrs_p, half_points=half_points,
                                color_pool=color_pool))
     if rng.random() < as_colheader_false:
